@@ -135,6 +135,19 @@ pub async fn read_directories_async(
     Ok(tiles)
 }
 
+/// (verification hook, read-only instrumentation) how much work `read_directories` has been asked to do:
+/// tile ids expanded from run lengths and directories read, process-wide.
+#[cfg(feature = "verif")]
+#[doc(hidden)]
+pub mod verif_counters {
+    use std::sync::atomic::AtomicU64;
+
+    /// tile ids expanded so far
+    pub static EXPANDED_TILES: AtomicU64 = AtomicU64::new(0);
+    /// directories (root and leaf) read so far
+    pub static DIRECTORIES_READ: AtomicU64 = AtomicU64::new(0);
+}
+
 /// Maximum number of nested leaf directory levels that are followed while reading directories.
 const MAX_DIRECTORY_DEPTH: usize = 64;
 
@@ -176,6 +189,9 @@ async fn fn_name(
     let directory = read_directory([reader], [dir_length], [compression])?;
     let range_end = range_end_inc(filter_range).unwrap_or(u64::MAX);
 
+    #[cfg(feature = "verif")]
+    verif_counters::DIRECTORIES_READ.fetch_add(1, std::sync::atomic::Ordering::Relaxed);
+
     for entry in &directory {
         if entry.is_leaf_dir_entry() {
             // skip leaf directory, if it starts after range
@@ -206,6 +222,9 @@ async fn fn_name(
         }
 
         for tile_id in entry.tile_id_range() {
+            #[cfg(feature = "verif")]
+            verif_counters::EXPANDED_TILES.fetch_add(1, std::sync::atomic::Ordering::Relaxed);
+
             if !filter_range.contains(&tile_id) {
                 continue;
             }
